@@ -386,6 +386,12 @@ func (d *Disk) MMap(sz int) ([]byte, error) {
 		d.log(Op{Kind: OpMMap, Size: int64(sz), Err: true})
 		return nil, injected("mmap")
 	}
+	if sz < 0 || sz > 1<<30 {
+		// a mapping of this size can only come from garbage in a header; the
+		// simulator can not allocate it (a real mmap would succeed or ENOMEM)
+		d.log(Op{Kind: OpMMap, Size: int64(sz), Err: true})
+		return nil, fmt.Errorf("simdisk: mmap of %d bytes: cannot allocate memory", sz)
+	}
 	buf := make([]byte, sz)
 	n := copy(buf, d.cache)
 	for i := n; i < sz; i++ {
@@ -397,6 +403,11 @@ func (d *Disk) MMap(sz int) ([]byte, error) {
 }
 
 func (d *Disk) MUnmap(b []byte) error {
+	if len(b) == 0 {
+		// munmap(NULL, 0) fails with EINVAL on a real system
+		d.log(Op{Kind: OpMUnmap, Err: true})
+		return errors.New("simdisk: munmap: invalid argument")
+	}
 	if len(b) > 0 {
 		p := unsafe.SliceData(b)
 		for i, v := range d.views {
